@@ -1,9 +1,4 @@
 // ---- env/handle_env.rs: what handle_htlc's slices need besides the shared env -------------------
-impl PartialEq for messages::TrampolineInfo {
-    // structural equality (the real type derives PartialEq)
-    #[verifier::external_body]
-    fn eq(&self, o: &Self) -> (r: bool) ensures r == (*self == *o) { unimplemented!() }
-}
 // the table lock as seen from handle_htlc's classification prefix: taking it is a side effect
 impl<T> Mutex<T> {
     #[verifier::external_body]
@@ -13,10 +8,6 @@ impl<T> Mutex<T> {
 }
 
 // ---- whole handle_htlc --------------------------------------------------------------------------
-impl Clone for messages::TrampolineInfo {
-    #[verifier::external_body]
-    fn clone(&self) -> (r: Self) ensures r == *self { unimplemented!() }
-}
 pub mod tokio {
     // under E2 the spawned future has already been evaluated to its (unit) value by the stub of
     // payment_lifecycle; spawning is the hand-over to the scheduler (not under contract)
